@@ -20,5 +20,7 @@ for _f in sorted(glob.glob(os.path.join(HERE, "props.d", "C*.py"))):
     _m = importlib.util.module_from_spec(_spec)
     _spec.loader.exec_module(_m)
     PROPS[_id] = _m.PROP
+    if hasattr(_m, "custom"):
+        PROPS[_id]["custom"] = _m.custom
     if hasattr(_m, "EXTRA_BUILD"):
         EXTRA_BUILDS.append(_m.EXTRA_BUILD)
